@@ -23,9 +23,11 @@ choice: {"sp": bool, "before": [{"c": body} | {"id": v, "sp": bool} | {"retry": 
 """
 from __future__ import annotations
 
+import codecs
 import copy
 import itertools
 import json
+import re
 
 # ------------------------------------------------------------------------------- messages
 
@@ -152,6 +154,11 @@ def body_bytes(body):
         raw = sse_text(body).encode()
     else:
         raise ValueError(f)
+    if body.get("dup"):
+        # every object repeats a member with the same value (duplicated members: the value is unambiguous)
+        raw = raw.replace(b'"jsonrpc":"2.0",', b'"jsonrpc":"2.0","jsonrpc":"2.0",')
+    if body.get("bom"):
+        raw = b"\xef\xbb\xbf" + raw
     if body.get("cut"):
         raw = raw[: max(1, len(raw) // 2)]
     bad = body.get("bad")
@@ -180,14 +187,30 @@ def model_behaviour(b):
         ok = True
     except UnicodeDecodeError:
         ok = False
-    return {"status": b["status"], "ct": b["ct"], "sess": b.get("sess"), "text": raw.decode("utf-8", "replace"), "utf8": ok}
+    # response.text decodes with the charset the Content-Type declares (httpx; default utf-8); response.json() reads
+    # the bytes (json.loads detects the encoding, a UTF-8 BOM included)
+    enc = "utf-8"
+    mm = re.search(r"charset=([\w-]+)", b.get("ctv") or "", re.I)
+    if mm:
+        try:
+            codecs.lookup(mm.group(1))
+            enc = mm.group(1)
+        except LookupError:
+            pass
+    if b["ct"] == "json":
+        enc = "utf-8"
+    text = raw.decode(enc, "replace")
+    if b["ct"] == "json" and ok and raw.startswith(b"\xef\xbb\xbf"):
+        text = raw[3:].decode("utf-8")
+    return {"status": b["status"], "ct": b["ct"], "sess": b.get("sess"), "text": text, "utf8": ok}
 
 
 # ------------------------------------------------------------------------------- expectations
 
 def body_msgs(body):
     if body["form"] in ("json", "batch"):
-        return list(body["msgs"])
+        bad = set(body.get("invalid") or [])     # members the message class rejects: not deliverable
+        return [m for k, m in enumerate(body["msgs"]) if k not in bad]
     if body["form"] == "sse":
         return [e["msg"] for e in body["events"] if e.get("msg") is not None]
     return []
@@ -237,6 +260,10 @@ def expect(b):
         return {"cls": cls, "srv": [], "strict": False, "mangled": False}
     if body.get("bad") == "instr":
         return {"cls": None, "srv": [], "strict": False, "mangled": True}
+    if body.get("bom") or body.get("damaged"):
+        # a byte-order mark in front of the body / a declared charset that is not the bytes' encoding: whether
+        # the body is still read is the code's business; the request ends with exactly one terminal
+        return {"cls": None, "srv": [], "strict": False, "mangled": True, "free": True}
     strict = (f in ("json", "batch") and b["ct"] == "json") or (f == "sse" and b["ct"] == "sse")
     return {"cls": None, "srv": body_msgs(body), "strict": strict, "mangled": False}
 
@@ -1158,3 +1185,177 @@ def hardening2(rng, budget):
         c["hk"] = f"instances/{c['instances']}"
         out.append(c)
     return decorate(out, salt=1)
+
+
+# ------------------------------------------------------------------------------- hardening sweep 3
+
+def null_variants(rid, tag):
+    """otherwise valid replies with explicit nulls, unusual member combinations and orders"""
+    i = idval(rid)
+    out = []
+    if rid is not None:
+        out += [
+            {"jsonrpc": "2.0", "id": i, "result": {"tag": tag}, "error": None},
+            {"jsonrpc": "2.0", "id": i, "error": {"code": -32001, "message": "no", "data": {"tag": tag}}, "result": None},
+            {"jsonrpc": "2.0", "id": i, "result": {"tag": tag}, "error": None, "method": None, "params": None},
+            {"error": None, "result": {"tag": tag, "error": None, "result": None}, "id": i, "jsonrpc": "2.0"},
+            {"id": i, "result": {"tag": tag}},                                   # no jsonrpc member
+            {"jsonrpc": "2.0", "id": i, "result": {"tag": tag}, "_meta": None, "extra": {"error": {"code": 1}}},
+        ]
+    else:
+        out += [
+            {"jsonrpc": "2.0", "method": "notifications/message", "params": {"tag": tag}, "id": None},
+            {"jsonrpc": "2.0", "method": "notifications/message", "params": None, "tag": tag, "result": None, "error": None},
+            {"params": {"tag": tag, "error": None}, "method": "notifications/progress", "jsonrpc": "2.0"},
+        ]
+    return out
+
+
+INVALID_MEMBERS = [
+    {"jsonrpc": "2.0", "id": "job-7", "result": "done"},          # spec-conformant, but the result is no object
+    42, "text", None, [], [{"jsonrpc": "2.0", "id": "job-8", "result": 1}],
+    {"jsonrpc": "2.0", "id": "job-9"},                              # neither result nor error
+    {"jsonrpc": "2.0", "id": "job-10", "error": {"message": "no code"}},
+    {"jsonrpc": "2.0", "id": "job-11", "result": {}, "error": {"code": 1, "message": "both"}},
+    {"jsonrpc": 2, "method": "notifications/message"},
+]
+
+
+def partial_batches(quick=True):
+    """a rejected member at every position of a batch / an event stream, deliverable members around it,
+    and then the NEXT request on the same connection"""
+    out = []
+    n = 0
+    for L in (2, 3, 4):
+        for word in itertools.product("NRX", repeat=L):
+            if "X" not in word or word.count("R") > 1 or (quick and L == 4 and (n := n + 1) % 3):
+                continue
+            for form, ct in (("json", "json"), ("sse", "sse"), ("json", "absent")):
+                n += 1
+                rid = REQ_IDS[n % 2] if "R" in word or n % 3 else None
+                msgs, invalid = [], []
+                for k, w in enumerate(word):
+                    if w == "N":
+                        msgs.append([notif(f"pb{n}-{k}"), server_request(f"pb{n}-{k}")][(n + k) % 2])
+                    elif w == "R":
+                        msgs.append((result if n % 2 else error)(rid, f"pb{n}") if rid is not None else notif(f"pb{n}-r"))
+                    else:
+                        invalid.append(k)
+                        msgs.append(INVALID_MEMBERS[(n + k) % len(INVALID_MEMBERS)])
+                if form == "json":
+                    body = {"form": "batch", "msgs": msgs, "invalid": invalid}
+                else:
+                    evs = []
+                    for k, m in enumerate(msgs):
+                        evs.append(raw_event(dumps(m), [None, "message"][k % 2]) if k in invalid else sse_event(m, name=[None, "message"][(n + k) % 2]))
+                    body = {"form": "sse", "events": evs, "eols": [[], [True] * 16][n % 2], "tail": "full"}
+                nxt = {"i": 950}
+                c = mkcase([mkreq(rid, response_b(200, ct, body)),
+                            mkreq(nxt, response_b(200, "json", body_for("json", content("response", nxt, f"pb{n}-next"))))])
+                c["hk"] = "partial-batch/" + form
+                out.append(c)
+    return out
+
+
+def hardening3(rng, budget):
+    quick = budget == "quick"
+    out = []
+    n = 0
+    # N: explicit nulls / unusual member combinations / duplicated members / BOM / declared charset, every body form
+    for rid in (REQ_IDS[0], REQ_IDS[1], REQ_IDS[2], None):
+        for v, m in enumerate(null_variants(rid, "nv")):
+            for form, ct, status in (("json", "json", 200), ("batch", "json", 200), ("sse", "sse", 200), ("json", "absent", 202), ("json", "json", 500)):
+                n += 1
+                tag = f"nv{n}"
+                msg = json.loads(json.dumps(m).replace('"nv"', json.dumps(tag)))
+                msgs = [msg] if form != "batch" else [notif(tag + "-b"), msg]
+                body = sse_body(msgs, name=[None, "message"][n % 2]) if form == "sse" else ({"form": "batch", "msgs": msgs} if form == "batch" else {"form": "json", "msgs": msgs})
+                if n % 4 == 0 and form != "sse":
+                    body["dup"] = True
+                c = mkcase([mkreq(rid, response_b(status, ct, body), as_dict=bool(n % 3 == 0))])
+                c["hk"] = "nulls-and-member-combinations"
+                out.append(c)
+    for rid in (REQ_IDS[0], REQ_IDS[1]):
+        for ascii_only in (True, False):
+            for ct, ctv in (("json", "application/json; charset=ISO-8859-1"), ("json", "application/json; charset=utf-8"),
+                            ("sse", "text/event-stream; charset=iso-8859-1"), ("sse", "text/event-stream; charset=UTF-8"),
+                            ("other", "text/plain; charset=latin-1"), ("json", "application/json; charset=bogus-8")):
+                n += 1
+                r = result(rid, f"cs{n}")
+                r["result"]["x"] = "plain ascii" if ascii_only else "éü ☃"
+                body = body_for("sse" if ct == "sse" else "json", [r])
+                if not ascii_only and "8859" in ctv.lower() + "" or (not ascii_only and "latin" in ctv):
+                    if ct != "json":
+                        body["damaged"] = True
+                b = response_b(200, ct, body)
+                b["ctv"] = ctv
+                c = mkcase([mkreq(rid, b)])
+                c["hk"] = "declared-charset"
+                out.append(c)
+            for ct in ("json", "sse", "other"):
+                n += 1
+                body = dict(body_for("sse" if ct == "sse" else "json", content("response", rid, f"bom{n}")), bom=True)
+                c = mkcase([mkreq(rid, response_b(200, ct, body))])
+                c["hk"] = "byte-order-mark"
+                out.append(c)
+    # K: partial failure inside a batch / an event stream
+    out += partial_batches(quick)
+    # every N / K case also with DEBUG logging and a formatting handler (the decorate() rotation only hits a quarter)
+    out += [dict(c, debug=True) for c in out]
+    # I: sizes far above every buffer, small messages before and after
+    for size in ([300_000] if quick else [300_000, 1_000_000]):
+        for form, ct in (("json", "json"), ("sse", "sse")):
+            n += 1
+            rid = REQ_IDS[n % 2]
+            r = result(rid, f"big{n}")
+            r["result"]["big"] = "x" * size
+            c = mkcase([mkreq({"i": 801}, response_b(200, "json", body_for("json", content("response", {"i": 801}, f"big{n}-a")))),
+                        mkreq(rid, response_b(200, ct, body_for(form, [notif(f"big{n}-n", "y" * (size // 3)), r]))),
+                        mkreq({"i": 802}, response_b(200, "sse", sse_body(content("response", {"i": 802}, f"big{n}-b"))))])
+            c["hk"] = f"size/{size // 1000}kB"
+            out.append(c)
+    if not quick:
+        reqs = []
+        for j in range(1000):
+            rid = {"i": 5000 + j}
+            reqs.append(mkreq(rid, response_b(200, ["json", "sse"][j % 2], body_for(["json", "sse"][j % 2], content("response", rid, f"k{j}")))))
+        c = mkcase(reqs)
+        c["hk"] = "size/1000-messages"
+        out.append(c)
+    # H: idle for hours of (virtual) time between two requests; a burst right after
+    for hours in (1, 10, 1000):
+        c = sequence((0, 4, 18, 2), rot=1)
+        c["reqs"][2]["delay"] = hours * 3600 * 1024
+        c["reqs"][3]["delay"] = hours * 3600 * 1024 + 1
+        c["hk"] = "idle-for-hours"
+        out.append(c)
+    # L: the caller closes its sending end right after queueing / stops listening while POSTs are outstanding
+    for k, w in enumerate([(0, 4, 18), (5, 12, 2, 3), (13, 13, 0)]):
+        c = sequence(w, rot=k)
+        for j, r in enumerate(c["reqs"]):
+            r["b"]["lat"] = [0, 512, 1024][(j + k) % 3]
+        c["close_wr"] = True
+        c["hk"] = "half-close/write-end"
+        out.append(c)
+        d = copy.deepcopy(c)
+        d.pop("close_wr")
+        d["close_rd_after"] = k
+        d["hk"] = "half-close/read-end"
+        out.append(d)
+    # M: the library's other message classes, a dict subclass; ids that are canonically equivalent but different strings
+    for shape in ("specific", "wrapper", "odict"):
+        for w in [(0, 13), (18, 4), (9, 2), (12, 5)]:
+            n += 1
+            c = sequence(w, rot=n % 6)
+            for r in c["reqs"]:
+                r["shape"] = shape
+            c["hk"] = "message-shape/" + shape
+            out.append(c)
+    for form in ("json", "sse"):
+        a, b_ = {"s": "café"}, {"s": "café"}
+        c = mkcase([mkreq(a, response_b(200, form, body_for(form, content("response", a, "nfc")))),
+                    mkreq(b_, response_b(200, form, body_for(form, content("wrong-id", a, "nfd") + content("response", b_, "nfd2")))),
+                    mkreq({"s": "﻿id"}, response_b(500, "json", {"form": "empty"}))])
+        c["hk"] = "unicode-twin-ids"
+        out.append(c)
+    return decorate(out, salt=9)
